@@ -684,9 +684,10 @@ def _flags():
     return {"datetime_col": DATETIME_COLUMNS}
 
 
-# DATETIME(sortable=True): the column default (2**64-1 microseconds) cannot be decoded (OverflowError in
-# fields.py, owned by C13). Until that is repaired the generator keeps DATETIME columns out (stored
-# DATETIME values are exercised).
+# DATETIME(sortable=True): on the pinned tree the column default (2**64-1 microseconds) could not be decoded
+# (OverflowError in fields.py, owned by C13, fixed there as "DATETIME(sortable=True) raised OverflowError reading the
+# column value of a document without a date"). Set to False to keep DATETIME columns out of the generator on a tree
+# that lacks that fix (stored DATETIME values are exercised either way).
 DATETIME_COLUMNS = True
 
 
